@@ -21,6 +21,8 @@ def cfg : Cfg :=
     linkGoneEsrch := Gen.C14.linkGoneEsrch
     infoGoneEnoent := Gen.C14.infoGoneEnoent
     infoGoneEsrch := Gen.C14.infoGoneEsrch
+    infoReadGoneEnoent := Gen.C14.infoReadGoneEnoent
+    infoReadGoneEsrch := Gen.C14.infoReadGoneEsrch
     finalAliveCheck := Gen.C14.finalAliveCheck
     ioSep := Gen.C14.ioSep
     ioKeys := Gen.C14.ioKeys
